@@ -21,8 +21,7 @@ func init() {
 
 type auditEntry struct{ fn, pat, reason string }
 
-var c01Audited = []auditEntry{
-}
+var c01Audited = []auditEntry{}
 
 var c01AuditedPanics = map[string]string{
 	"decode":          "pre-CRC invariant n == limit: decodeFileData returns nil only through n >= limit (C10-R3) and fill caps n <= limit (C10-R2)",
